@@ -31,6 +31,9 @@ struct State {
     bool handover = false;
     std::vector<std::unique_ptr<TripWireTrigger>> pre_trigger;
     std::vector<TripWireDetector> proto;
+    // one detector object per line that several threads poll concurrently (isTripped() is
+    // const; SearchableObjectHolder itself polls one detector member from all its callers)
+    std::vector<TripWireDetector> shared_det;
     long datum[MAXL] = {0};  // plain data published by the trigger thread
     // oracle
     bool destroy_begun[MAXL] = {false};
@@ -149,7 +152,10 @@ void do_trigger(gsim::Op op)
 void do_detect(gsim::Op op)
 {
     int line = op.a % S->nlines;
-    TripWireDetector d = make_detector(line);
+    TripWireDetector own = make_detector(line);
+    const bool use_shared = (op.c & 4) != 0 && !S->shared_det.empty();
+    const TripWireDetector& d = use_shared ? S->shared_det[(size_t)line] : own;
+    if (use_shared) gsim::probe("trip.shared_detector_polled");
     int polls = 1 + op.b % 6;
     bool seen = false;
     for (int i = 0; i < polls; i++) {
@@ -170,7 +176,7 @@ void do_detect(gsim::Op op)
                            "the trigger was destroyed reads %ld", line, v);
             gsim::probe("trip.detector_saw_trip");
         }
-        for (int y = 0; y <= op.c % 3; y++) gsim::yield();
+        for (int y = 0; y <= (op.c & 3) % 3; y++) gsim::yield();
     }
 }
 
@@ -230,7 +236,7 @@ void run()
                 } else if (st.is_static && gsim::gen_int(8) == 0) {
                     gsim::prog_add(t, {OP_BAD_INDEX, gsim::gen_int(4), gsim::gen_int(2), 0});
                 } else {
-                    gsim::prog_add(t, {OP_DETECT, line, gsim::gen_int(6), gsim::gen_int(3)});
+                    gsim::prog_add(t, {OP_DETECT, line, gsim::gen_int(6), gsim::gen_int(3) | (gsim::gen_int(3) == 0 ? 4 : 0)});
                 }
             }
         }
@@ -266,6 +272,10 @@ void run()
             gsim::probe("trip.creator_handed_over");
         }
     }
+    {
+        gsim::Oracle o;
+        for (int i = 0; i < st.nlines; i++) st.shared_det.push_back(make_detector(i));
+    }
     wl::run_program(body);
     gsim::faults_off();
     // after join every destroyed line is tripped for thread 0, every other line is not
@@ -289,6 +299,7 @@ void run()
         gsim::Oracle o;
         st.lines.clear();
         st.proto.clear();
+        st.shared_det.clear();
         st.pre_trigger.clear();
     }
     S = nullptr;
